@@ -53,6 +53,12 @@ func runRollbackRule(c *Ctx, rule, ownerType, targetField string, min int) {
 		calls []*ssa.Call
 	}
 	sites := map[string]*site{}
+	type rollbackHelper struct {
+		fn    *ssa.Function
+		param int
+		field *types.Var
+	}
+	var helpers []rollbackHelper
 	for _, fn := range p.ModuleSSAFuncs() {
 		if fn.Origin() != nil || fn.Blocks == nil || fnPkgPath(fn) != modPath {
 			continue
@@ -124,6 +130,45 @@ func runRollbackRule(c *Ctx, rule, ownerType, targetField string, min int) {
 				}
 			}
 			if !carries {
+				// a helper that is handed the index: its callers are the ones that append
+				for _, r := range *arr.Referrers() {
+					ia, ok := r.(*ssa.IndexAddr)
+					if !ok {
+						continue
+					}
+					for _, rr := range *ia.Referrers() {
+						var fas []*ssa.FieldAddr
+						switch y := rr.(type) {
+						case *ssa.FieldAddr:
+							fas = append(fas, y)
+						case *ssa.Store:
+							if al, ok := y.Val.(*ssa.UnOp); ok {
+								if loc, ok := al.X.(*ssa.Alloc); ok {
+									for _, r3 := range *loc.Referrers() {
+										if fa3, ok := r3.(*ssa.FieldAddr); ok {
+											fas = append(fas, fa3)
+										}
+									}
+								}
+							}
+						}
+						for _, fa2 := range fas {
+							for _, r3 := range *fa2.Referrers() {
+								s3, ok := r3.(*ssa.Store)
+								if !ok || s3.Addr != ssa.Value(fa2) || !isNumericBasic(s3.Val.Type()) {
+									continue
+								}
+								if par, ok := s3.Val.(*ssa.Parameter); ok && fn.Parent() == nil {
+									for pi, q := range fn.Params {
+										if q == par {
+											helpers = append(helpers, rollbackHelper{fn, pi, f})
+										}
+									}
+								}
+							}
+						}
+					}
+				}
 				return
 			}
 			top := fn
@@ -136,6 +181,23 @@ func runRollbackRule(c *Ctx, rule, ownerType, targetField string, min int) {
 			}
 			sites[k].calls = append(sites[k].calls, call)
 		})
+	}
+	for _, h := range helpers {
+		for _, cs := range callersOf(p, h.fn) {
+			call, ok := cs.(*ssa.Call)
+			if !ok || h.param >= len(call.Call.Args) || !derivesFromLenOf(call.Call.Args[h.param], target) {
+				continue
+			}
+			top := call.Parent()
+			for top.Parent() != nil {
+				top = top.Parent()
+			}
+			k := FuncKey(top) + "|" + p.FieldName(h.field)
+			if sites[k] == nil {
+				sites[k] = &site{fn: top, field: h.field}
+			}
+			sites[k].calls = append(sites[k].calls, call)
+		}
 	}
 	var keys []string
 	for k := range sites {
